@@ -25,7 +25,9 @@ class Mon(Monitor):
                         for e in pubs(w, r.addr):
                             if e.idx >= r.idx:
                                 break
-                            if accepted(e) and not e.tx and w.session_alive(e) and (e.qos == 0 or e.pending):
+                            e_sent = sum(1 for t in e.tx if t[0] < w.step) + self._txs_in_step_before(w, o, e)
+                            e_pending = e.pending or (e.fires and e.fires[0][0] == w.step)
+                            if accepted(e) and not e_sent and w.session_alive(e) and (e.qos == 0 or e_pending):
                                 out.append(V('fifo', 'fifo/overtaken/q%d-before-q%d' % (r.qos, e.qos),
                                              'request %d (qos %d) first sent while earlier request %d (qos %d) '
                                              'is still unsent' % (r.idx, r.qos, e.idx, e.qos)))
@@ -113,6 +115,8 @@ def scenarios(ctx):
     # publish() called again from inside the success callback of an earlier publish (re-entrant use of the API)
     out.append(Std('pub-reenter', profile='pub', mode='sync', init=CONNECTED, windows=(1, 2), pub_qos=(0, 1, 2), reenter=('pub',),
                    budgets=dict(pub=3, ack=3, setwin=1)))
+    out.append(Std('pub-reenter-q0', profile='pub', mode='sync', init=CONNECTED, windows=(1, 2), pub_qos=(0, 1), reenter=('ok:pub0>pub',),
+                   budgets=dict(pub=3, ack=2)))
     out.append(Std('pub-wrap', profile='pub', mode='sync', init=CONNECTED + (('setwin', 0, 2),), pub_qos=(0, 1, 2),
                    budgets=dict(pub=4, ack=1, setid=1)))
     out.append(Std('pubsub-persist-w3', profile='pubsub', mode='sync', init=CONNECTED_P + (('setwin', 0, 3),),
